@@ -90,6 +90,24 @@ def asciiChar (g : Guard) (s : Bytes) (i : Nat) : Out × Nat :=
     let stop := j                                          -- buf.get_cursor()
     (.ok (.ch c start stop), j)
 
+/-- A *raw* single-byte operand (not part of the crate; defined in the harness as
+    `RawChar`, with the crate's own `parse_prim::<AsciiCharPrimitive>`):
+    ```
+    let start = buf.get_cursor();
+    let c = parse_prim::<AsciiCharPrimitive>(buf)?;      // consumes the byte
+    if !guard(&c) { return Err(GuardError) }              // … and does not give it back
+    Ok(LocatedVal::new(c, start, buf.get_cursor()))
+    ```
+    It has the cursor discipline of the crate's hand-written parsers that do not restore on
+    failure, and exists so that the restores done by the combinators themselves are observable. -/
+def rawChar (g : Guard) (s : Bytes) (i : Nat) : Out × Nat :=
+  let start := i
+  match parsePrim .any s i with
+  | (.error o, j) => (o, j)
+  | (.ok c, j) =>
+    if !(g.holds c) then (.err .guard, j)
+    else (.ok (.ch c start j), j)
+
 /-- The loop of `Star::parse`.  State: `c` (cursor after the last success),
     `v` (values so far), `(r, cur)` (result of the latest body parse and the
     buffer cursor after it).  `p j` runs the body at cursor `j`. -/
@@ -112,7 +130,8 @@ def starLoop (p : Nat → Out × Nat) (s : Bytes) (start : Nat) :
 /-- `ParsleyParser::parse` of the parser built from `e`, at cursor `i` of buffer `s`.
     Returns the outcome and the buffer cursor afterwards. -/
 def run : E → Nat → Bytes → Nat → Out × Nat
-  | .chr g, _, s, i => asciiChar g s i
+  | .chr g false, _, s, i => asciiChar g s i
+  | .chr g true, _, s, i => rawChar g s i
   | .seq a b, fuel, s, i =>                                -- Sequence::parse
     let start := i                                         -- buf.get_cursor()
     match run a fuel s i with                              -- self.p1.parse(buf)
